@@ -150,8 +150,7 @@ pub fn abs(m: &Monitor, word: usize) -> i64 {
 }
 
 fn cell_id(m: &mut Monitor, addr: usize) -> i64 {
-    let n = m.canon.len() as u32 + 1;
-    *m.canon.entry(addr).or_insert(n) as i64
+    m.canon_of(addr) as i64
 }
 
 pub struct Ctx {
